@@ -722,6 +722,78 @@ def gen_adapters(rng, knobs=None):
     return opts, prog
 
 
+def gen_tlc2(rng, knobs=None):
+    """schedules proposed by the two-interaction design model RSocketMC2.tla (two interactions side by side, shared sender and link):
+    actions AOpen / BDeliver / Send / ... are projected onto driver primitives like gen_tlc does for one interaction; the first
+    interaction opened gets ref 0, the second ref 1.  knobs: file = JSON list of {A: {kind, init, lib}, B: {...}, actions: [...]}"""
+    import json
+    k = dict(knobs or {})
+    with open(k['file']) as f:
+        behaviours = json.load(f)
+    if k.get('sequential'):
+        b = behaviours[(k.get('_i', 0) - k.get('base', 0)) % len(behaviours)]
+    else:
+        b = behaviours[rng.randrange(len(behaviours))]
+    opts = {'mode': rng.choice(['tcp', 'tcp', 'msg']), 'frag': None, 'read_buffer': rng.choice([1, 7, 1024])}
+    prog = [['start'], ['pump'], ['gate_close', 'c'], ['gate_close', 's']]
+    p_settle = rng.choice([1.0, 0.7, 0.4])
+    ref = {}
+
+    def maybe_settle():
+        return rng.random() < p_settle
+
+    for act in b['actions']:
+        name, args = act[0], act[1:]
+        if name == 'Send':
+            prog.append(['gate', args[0], 1])
+            continue
+        if name in ('Quiesce2',):
+            continue
+        X, base = name[0], name[1:]
+        if X not in ('A', 'B'):
+            continue
+        d = b[X]
+        kind, R = d['kind'], d['init']
+        if base == 'Open':
+            ref[X] = len(ref)
+            sp = spec(rng, big=False)
+            if kind == 'rr':
+                prog.append(['rr', R, sp, {'mode': 'later'}])
+            else:
+                pol = {'src': 'generator', 'items': items(rng, 1, big=False), 'complete_on_last': True} if d.get('lib') else {'src': 'scripted'}
+                prog.append(['stream', R, sp, args[0], pol, True])
+            continue
+        if X not in ref:
+            continue
+        r = ref[X]
+        if base == 'Deliver':
+            prog.append(['deliver_frame', 's' if args[0] == 'c' else 'c', maybe_settle()])
+        elif base == 'Respond':
+            prog.append(['respond_error', r] if args[0] else ['respond', r, spec(rng, big=False)])
+            if maybe_settle():
+                prog.append(['settle'])
+        elif base == 'PubNext':
+            if not d.get('lib'):
+                sp = spec(rng, big=False)
+                prog.append(['emit', r, args[0], sp[0], sp[1], 1 if args[1] else 0])
+            else:
+                prog.append(['settle'])
+        elif base == 'PubComplete':
+            prog.append(['complete', r, args[0]])
+        elif base == 'PubError':
+            prog.append(['error', r, args[0]])
+        elif base == 'SubCancel':
+            prog.append(['cancel', r, args[0]])
+        elif base == 'SubRequestN':
+            prog.append(['request_n', r, args[0], args[1]])
+        elif base == 'FutCancel':
+            prog.append(['fut_cancel', r, False])
+        elif base == 'FutCancelCallback':
+            prog.append(['settle'])
+    prog.append(['finish'])
+    return opts, prog
+
+
 def gen_idwrap(rng, knobs=None):
     """the id space is reduced to 0..7 or 0..15 (the way the library's own suite does), so that within one connection ids wrap
     around and are used again: many short interactions of either endpoint, a few long-lived streams that must be skipped,
